@@ -350,7 +350,7 @@ example : ((model cfg4).run (init cfg4) (guardedSurvives ++ thenFreed)).map
     some (.disposed, [], none, [1]) := by decide +kernel
 
 /-- THE SEEDED DEFECT (seeded/C02-dhp-scan-extension-block-size: a pass copies only `initial_capacity_` guards of every
-    extension block).  On the machine `modelSeeded` (= `stepW init` instead of `stepW B`) the same program, with the
+    extension block).  On the machine `modelSeeded` (= `stepW init false` instead of `stepW B false`) the same program, with the
     pass now 15 steps long (4 + list, 4 + list + FOUR slots of block 1, decision), disposes o1 while slot (1,1,4) still
     guards it: the statement of `C02_guarded_never_disposed` is FALSE for that machine, and the lemma that breaks is
     `pinv_scanLd_next_blk` / `pinv_scanLd_last` (Algo/DHP/Inv.lean), whose hypothesis `¬ i + 1 < B` is what the real
@@ -404,5 +404,33 @@ example : ((model cfgG).run (init cfgG) grow).map (fun x => (x.1.retired 0, x.1.
 
 example : ((model cfgG).run (init cfgG) (grow ++ op 0 "scan" [] 6)).map (fun x => (x.1.retired 0, x.1.rblk 0, x.1.log)) =
     some ([1, 2, 3, 4], 2, [5]) := by decide +kernel
+
+/-! ### The finding: `retired_array::extend()` before its repair (RB = 8, init = 8, T = 1)
+
+  Seven objects are retired while guarded, an eighth unguarded one fills the only block: `retire` runs a pass, which
+  keeps seven and frees o8 - fewer than a quarter (1 < 8/4) of a chain that was completely full, so the chain is
+  extended.  The repaired code leaves the write position behind the seven kept entries.  The code as it stood (machine
+  `modelUnrepaired`) moved it to the new block: the entry of o8 stays in the chain, and the next pass hands o8 to the
+  disposer a second time.  (Real code, unchanged tree at the time: harness/probes/dhp_retired_extend_double_dispose.cpp; the
+  trace tie reported it as `retire T<t> o260 257` against the machine's 201, client option `--grow 200`.) -/
+
+def cfgU : Cfg := ⟨8, 16, 1, 8⟩
+def fillAndPass : List (Tid × Act) :=
+  op 0 "swap" [0] 1 ++ ((List.range 7).flatMap fun (h : Nat) => op 0 "galloc" [(h : Int)] 1) ++
+  ((List.range 7).flatMap fun (h : Nat) => op 0 "protect" [(h : Int), 0] 3 ++ op 0 "swap" [0] 2) ++
+  op 0 "swap" [0] 12
+
+/-- repaired: the chain holds the seven kept entries, o8 has been disposed once - also after one more pass -/
+example : ((model cfgU).run (init cfgU) fillAndPass).map (fun x => (x.1.retired 0, x.1.rblk 0, x.1.log)) =
+    some ([1, 2, 3, 4, 5, 6, 7], 2, [8]) := by decide +kernel
+example : ((model cfgU).run (init cfgU) (fillAndPass ++ op 0 "scan" [] 10)).map (fun x => (x.1.retired 0, x.1.log)) =
+    some ([1, 2, 3, 4, 5, 6, 7], [8]) := by decide +kernel
+
+/-- unrepaired: the stale entry of o8 is still in the chain after the extending pass ... -/
+example : ((modelUnrepaired cfgU).run (init cfgU) fillAndPass).map (fun x => (x.1.retired 0, x.1.rblk 0, x.1.log)) =
+    some ([1, 2, 3, 4, 5, 6, 7, 8], 2, [8]) := by decide +kernel
+/-- ... and the next pass disposes o8 again -/
+example : ((modelUnrepaired cfgU).run (init cfgU) (fillAndPass ++ op 0 "scan" [] 10)).map (fun x => x.1.log) =
+    some [8, 8] := by decide +kernel
 
 end CdsVerif.Props.C02DHP
